@@ -2,6 +2,11 @@ import Mathlib.Algebra.Module.Defs
 import Mathlib.Algebra.BigOperators.Group.List.Basic
 import Mathlib.Data.Set.Function
 import Mathlib.Data.ZMod.Basic
+import Mathlib.Data.List.Nodup
+import Mathlib.Algebra.Field.Basic
+import Mathlib.Tactic.Ring
+import Mathlib.Tactic.Linarith
+import Mathlib.Tactic.LinearCombination
 import BronVerif.Gen.PrngSites
 import BronVerif.Model.Joint
 /-!
@@ -174,6 +179,82 @@ theorem required_sites_present : ∀ r ∈ requiredRoles, hasRole r = true := by
   have h : requiredRoles.all hasRole = true := by decide +kernel
   exact List.all_eq_true.mp h
 
+
+/-! ### Per-peer draws stay inside their loop
+
+A secret that is meant to be fresh for every peer / recipient / OT instance is sampled inside the loop
+over those peers.  Hoisting the sampling call above the loop leaves every rule above intact (the call
+still reads the party's reader) but makes all peers share one draw.  The generator records the loop
+nesting depth of every site; the per-peer sampling roles must sit at least that deep. -/
+
+structure LoopRole where
+  pkg : Str
+  fn : Str
+  callee : Str
+  /-- minimal number of enclosing loops (2: per OT instance and per batch element) -/
+  depth : Nat := 1
+  /-- minimal number of such sites -/
+  min : Nat := 1
+  deriving DecidableEq, Inhabited
+
+def perPeerRoles : List LoopRole := [
+  -- session setup: the pairwise contribution and its commitment, once per peer
+  { pkg := cps!"pkg/mpc/session", fn := cps!"Participant.Round2", callee := cps!"io.ReadFull" },
+  { pkg := cps!"pkg/mpc/session", fn := cps!"Participant.Round2", callee := cps!"commitments.Commit" },
+  -- DKLs23: base-OT choice bits per peer; the per-peer OT / multiplication instances get the reader in a loop
+  { pkg := cps!"pkg/mpc/signatures/ecdsa/dkls23/signing_softspoken", fn := cps!"Cosigner.Round2", callee := cps!"io.ReadFull" },
+  { pkg := cps!"pkg/mpc/signatures/ecdsa/dkls23/signing_softspoken", fn := cps!"Cosigner.Round3", callee := cps!"rvole_softspoken.NewAlice" },
+  { pkg := cps!"pkg/mpc/signatures/ecdsa/dkls23/signing_softspoken", fn := cps!"Cosigner.Round3", callee := cps!"rvole_softspoken.NewBob" },
+  { pkg := cps!"pkg/mpc/signatures/ecdsa/dkls23/signing_softspoken", fn := cps!"NewCosigner", callee := cps!"ecbbot.NewSender" },
+  { pkg := cps!"pkg/mpc/signatures/ecdsa/dkls23/signing_softspoken", fn := cps!"NewCosigner", callee := cps!"ecbbot.NewReceiver" },
+  { pkg := cps!"pkg/mpc/signatures/ecdsa/dkls23/signing_bbot", fn := cps!"NewCosigner", callee := cps!"rvole_bbot.NewAlice" },
+  { pkg := cps!"pkg/mpc/signatures/ecdsa/dkls23/signing_bbot", fn := cps!"NewCosigner", callee := cps!"rvole_bbot.NewBob" },
+  -- multiplication: one check value per input coordinate
+  { pkg := cps!"pkg/mpc/rvole/bbot", fn := cps!"Alice.Round3", callee := cps!"·.Random" },
+  { pkg := cps!"pkg/mpc/rvole/softspoken", fn := cps!"Alice.Round2", callee := cps!"·.Random" },
+  -- base OTs: per OT instance and per batch element a fresh key-agreement scalar / POPF point
+  { pkg := cps!"pkg/ot/base/ecbbot", fn := cps!"Receiver.Round2", callee := cps!"·.R", depth := 2 },
+  { pkg := cps!"pkg/ot/base/ecbbot", fn := cps!"Receiver.Round2", callee := cps!"·.Program", depth := 2 },
+  { pkg := cps!"pkg/ot/base/vsot", fn := cps!"Receiver.Round2", callee := cps!"·.Random", depth := 2 },
+  -- pseudo-random zero sharing: one mask per peer seed
+  { pkg := cps!"pkg/mpc/zero/przs", fn := cps!"SampleZeroShare", callee := cps!"·.Random" },
+  -- CGGMP21: per-peer masks and masked products, per-peer factoring proofs
+  { pkg := cps!"pkg/mpc/signatures/ecdsa/cggmp21/signing", fn := cps!"Cosigner.Round2", callee := cps!"sampleMask", min := 2 },
+  { pkg := cps!"pkg/mpc/signatures/ecdsa/cggmp21/signing", fn := cps!"Cosigner.Round2", callee := cps!"paillierMaskedProduct", min := 2 },
+  { pkg := cps!"pkg/mpc/signatures/ecdsa/cggmp21/keygen/dkg", fn := cps!"Participant.Round3", callee := cps!"fac.NewProtocol" },
+  -- Lindell17 DKG: per share component an encryption, per peer and component a proof
+  { pkg := cps!"pkg/mpc/signatures/ecdsa/lindell17/keygen/dkg", fn := cps!"Participant.Round3", callee := cps!"encryptScalar", min := 2 },
+  { pkg := cps!"pkg/mpc/signatures/ecdsa/lindell17/keygen/dkg", fn := cps!"Participant.Round3", callee := cps!"lpdl.NewProver", depth := 2, min := 2 },
+  { pkg := cps!"pkg/mpc/signatures/ecdsa/lindell17/keygen/dkg", fn := cps!"Participant.Round3", callee := cps!"lp.NewProver" }
+]
+
+/-- the sites of a role in a table -/
+def roleSites (tbl : List Site) (r : LoopRole) : List Site :=
+  tbl.filter fun s => s.callee == r.callee && s.fn == r.fn && s.pkg == r.pkg
+
+def inLoop (tbl : List Site) (r : LoopRole) : Bool :=
+  r.min ≤ (roleSites tbl r).length && (roleSites tbl r).all fun s => r.depth ≤ s.loop
+
+/-- **Every per-peer sampling site sits inside its loop** (over the WHOLE regenerated table): a
+    per-peer draw that is hoisted out of the loop over the peers breaks this theorem. -/
+theorem per_peer_sites_in_loop : ∀ r ∈ perPeerRoles, inLoop uses r = true := by
+  have h : perPeerRoles.all (inLoop uses) = true := by decide +kernel
+  exact List.all_eq_true.mp h
+
+/-- non-vacuity / sensitivity: the session round-2 sites as they are, and with the `io.ReadFull`
+    hoisted above the loop (loop depth 0) -/
+private def sessR2 (readDepth : Nat) : List Site := [
+  { kind := .use, pkg := cps!"pkg/mpc/session", fn := cps!"Participant.Round2", callee := cps!"io.ReadFull", root := .field,
+    name := cps!"Participant.prng", src := 1, tgt := 0, loop := readDepth, over := cps!"·.otherParticipantsOrdered" },
+  { kind := .use, pkg := cps!"pkg/mpc/session", fn := cps!"Participant.Round2", callee := cps!"commitments.Commit", root := .field,
+    name := cps!"Participant.prng", src := 1, tgt := 0, loop := 1, over := cps!"·.otherParticipantsOrdered" }]
+
+example : (perPeerRoles.take 2).all (inLoop (sessR2 1)) = true := by decide
+example : (perPeerRoles.take 2).all (inLoop (sessR2 0)) = false := by decide
+/-- the real table has these sites at depth 1 (and the OT receiver's at depth 2) -/
+example : ((roleSites uses (perPeerRoles.getD 0 default)).map (·.loop), (roleSites uses (perPeerRoles.getD 11 default)).map (·.loop)) = ([1], [2]) := by
+  decide +kernel
+
 /-! ### Non-vacuity / sensitivity of the rules (on small hand-made tables) -/
 
 private def good : List Site := [
@@ -220,7 +301,7 @@ theorem first_message_must_stay (s : Slot) (c : Nat) (hc : s.from_ ≠ c) (hf : 
     (hs : s.dep ≠ .ownSched) (hd : s.dep.changes s.from_ s.to c = false) :
     s.expect c = .mustSame := by
   have hc' : (s.from_ == c) = false := by simpa using hc
-  cases hdep : s.dep <;> simp_all [Slot.expect]
+  cases hdep : s.dep <;> simp_all [Slot.expect, Dep.changes]
 
 /-- the dependencies a first message may have: its sender's stream (possibly scheduled) or nothing -/
 def firstDepOk : Dep → Bool
@@ -264,6 +345,348 @@ example : ((lindell22 [2, 12] false).joint.map fun j => j.expect 12) =
     [.same, .mustChange, .mustChange, .mustChange] := by decide
 
 end model
+
+
+/-! ## Part D: consumption specification and distinct draws (theorems about `Model/Draws.lean`
+    and the `need` tables of `Model/Joint.lean`) -/
+
+section draws
+open BronVerif.Draws BronVerif.Joint
+
+theorem sumNat_append (xs ys : List Nat) : sumNat (xs ++ ys) = sumNat xs + sumNat ys := by
+  induction xs with
+  | nil => simp [sumNat]
+  | cons x xs ih => simp only [sumNat, List.cons_append, List.foldr_cons] at ih ⊢; omega
+
+theorem minBytes_append (a b : List Draw) : minBytes (a ++ b) = minBytes a + minBytes b := by
+  simp [minBytes, sumNat_append]
+
+theorem exactBytes_append (a b : List Draw) : exactBytes (a ++ b) = exactBytes a + exactBytes b := by
+  simp [exactBytes, sumNat_append]
+
+theorem minBytes_scale (k : Nat) (ds : List Draw) : minBytes (ds.map (Draw.scale k)) = k * minBytes ds := by
+  induction ds with
+  | nil => simp [minBytes, sumNat]
+  | cons d ds ih =>
+    simp only [minBytes, sumNat, List.map_cons, List.foldr_cons, Draw.scale] at ih ⊢
+    rw [ih, Nat.mul_add, Nat.mul_assoc]
+
+theorem exactBytes_scale (k : Nat) (ds : List Draw) : exactBytes (ds.map (Draw.scale k)) = k * exactBytes ds := by
+  induction ds with
+  | nil => simp [exactBytes, sumNat]
+  | cons d ds ih =>
+    simp only [exactBytes, sumNat, List.map_cons, List.foldr_cons, Draw.scale] at ih ⊢
+    rw [ih, Nat.mul_add, Nat.mul_assoc]
+
+/-- **The entropy a step needs is affine in the number of peers** -/
+theorem step_min_affine (s : StepNeed) (peers : Nat) :
+    minBytes (s.draws peers) = minBytes s.once + peers * minBytes s.perPeer := by
+  simp [StepNeed.draws, minBytes_append, minBytes_scale]
+
+theorem step_exact_affine (s : StepNeed) (peers : Nat) :
+    exactBytes (s.draws peers) = exactBytes s.once + peers * exactBytes s.perPeer := by
+  simp [StepNeed.draws, exactBytes_append, exactBytes_scale]
+
+/-- non-vacuity: Lindell22 round 1 with three peers: 32 + 32 once (nonce, witness; the overwritten
+    coefficient needs nothing) and 32 per peer; the library reads 48 + 32 + 48 once and 48 per peer -/
+example : let st := ((lindell22 [1, 2, 3, 4] false).need 0 1).getD 1 {}
+    (minBytes st.once, minBytes st.perPeer, minBytes (st.draws 3), exactBytes st.once, exactBytes st.perPeer, exactBytes (st.draws 3)) =
+    (64, 32, 160, 128, 48, 272) := by decide
+
+theorem min_le_exact (ds : List Draw) (h : wellFormed ds = true) : minBytes ds ≤ exactBytes ds := by
+  induction ds with
+  | nil => simp [minBytes, exactBytes]
+  | cons d ds ih =>
+    simp only [wellFormed, List.all_cons, Bool.and_eq_true, decide_eq_true_eq] at h
+    have := ih (by simpa [wellFormed] using h.2)
+    simp only [minBytes, exactBytes, sumNat, List.map_cons, List.foldr_cons] at this ⊢
+    have := Nat.mul_le_mul_left d.count h.1
+    omega
+
+example : wellFormed (dealRandom "key" 3) = true ∧ minBytes (dealRandom "key" 3) = 96 ∧ exactBytes (dealRandom "key" 3) = 192 := by decide
+/-- it fails without well-formedness: a draw that claims more entropy than it reads -/
+example : let ds : List Draw := [{ what := "x", count := 1, size := 16, min := 32 }]
+    wellFormed ds = false ∧ ¬ minBytes ds ≤ exactBytes ds := by decide
+
+theorem judgeStep_below_iff (need : List Draw) (obs : Obs) :
+    (∃ m o, judgeStep need obs = .below m o) ↔ obsBytes obs < minBytes need := by
+  unfold judgeStep
+  constructor
+  · rintro ⟨m, o, h⟩
+    by_contra hc
+    simp only [hc, if_false] at h
+    split_ifs at h
+  · intro h
+    exact ⟨minBytes need, obsBytes obs, by simp [h]⟩
+
+theorem judgeStep_ok (need : List Draw) (obs : Obs) (h : judgeStep need obs = .ok) :
+    minBytes need ≤ obsBytes obs ∧ (need.any (·.lower) = false → obs = expected need) := by
+  unfold judgeStep at h
+  split_ifs at h with h1 h2 h3 h4
+  · exact ⟨by omega, by simp [h2]⟩
+  · refine ⟨by omega, fun _ => ?_⟩
+    exact (beq_iff_eq.mp h4).symm
+
+
+/-- the round-2 step of the session table -/
+def sessionRound2Need (ids : List Nat) (id : Nat) : List Draw :=
+  (((session ids).need 0 id).getD 2 {}).draws ((session ids).peers id)
+
+/-- **Session setup, round 2: one 32-byte contribution and one 32-byte witness per peer** -/
+theorem session_round2_min (ids : List Nat) (id : Nat) :
+    minBytes (sessionRound2Need ids id) = 64 * (ids.length - 1) ∧
+    exactBytes (sessionRound2Need ids id) = 64 * (ids.length - 1) := by
+  simp [sessionRound2Need, session, StepNeed.draws, minBytes, exactBytes, sumNat, Draw.scale, rawBytes]
+  omega
+
+/-- the reads of a round 2 whose contribution was sampled once above the loop: one contribution and
+    one witness per peer, i.e. `n` reads of 32 bytes for `n` parties -/
+def hoistedRound2Obs (n : Nat) : Obs := [(32, n)]
+
+/-- **A contribution shared by all peers is below the specification as soon as there are three
+    parties** (with two parties there is one peer and nothing can be shared: the reads coincide). -/
+theorem hoisted_contribution_below_spec (ids : List Nat) (id : Nat) (h : 3 ≤ ids.length) :
+    ∃ m o, judgeStep (sessionRound2Need ids id) (hoistedRound2Obs ids.length) = .below m o := by
+  rw [judgeStep_below_iff]
+  rw [(session_round2_min ids id).1]
+  simp [hoistedRound2Obs, obsBytes, sumNat]
+  omega
+
+example : judgeStep (sessionRound2Need [2, 5, 9] 5) (hoistedRound2Obs 3) = .below 128 96 := by decide
+example : judgeStep (sessionRound2Need [2, 5, 9] 5) [(32, 4)] = .ok := by decide
+/-- two parties: the hoisted round is indistinguishable (as it must be: it is the same computation) -/
+example : judgeStep (sessionRound2Need [2, 9] 9) (hoistedRound2Obs 2) = .ok := by decide
+
+
+/-- **The model's round function meets the consumption specification**: taking draws of the given
+    sizes out of a stream succeeds iff the stream is long enough, yields chunks of exactly those sizes,
+    and the chunks are consecutive segments of the stream (so distinct draws never share bytes). -/
+theorem takeDraws_consumes (sizes stream : List Nat) (chunks : List (List Nat)) (rest : List Nat)
+    (h : takeDraws sizes stream = some (chunks, rest)) :
+    chunks.map List.length = sizes ∧ stream = chunks.flatten ++ rest := by
+  induction sizes generalizing stream chunks rest with
+  | nil => simp [takeDraws] at h; obtain ⟨rfl, rfl⟩ := h; simp
+  | cons n sizes ih =>
+    simp only [takeDraws] at h
+    split_ifs at h with hlen
+    cases hrec : takeDraws sizes (stream.drop n) with
+    | none => simp [hrec] at h
+    | some pr =>
+      obtain ⟨cs, r⟩ := pr
+      simp only [hrec, Option.some.injEq, Prod.mk.injEq] at h
+      obtain ⟨rfl, rfl⟩ := h
+      obtain ⟨h1, h2⟩ := ih _ _ _ hrec
+      refine ⟨?_, ?_⟩
+      · simp [h1]; omega
+      · simp only [List.flatten_cons, List.append_assoc, ← h2, List.take_append_drop]
+
+theorem takeDraws_isSome (sizes stream : List Nat) :
+    (takeDraws sizes stream).isSome = true ↔ sumNat sizes ≤ stream.length := by
+  induction sizes generalizing stream with
+  | nil => simp [takeDraws, sumNat]
+  | cons n sizes ih =>
+    simp only [takeDraws, sumNat, List.foldr_cons]
+    split_ifs with hlen
+    · simp; have : sumNat sizes = List.foldr (· + ·) 0 sizes := rfl; omega
+    · have := ih (stream.drop n)
+      cases hrec : takeDraws sizes (stream.drop n) with
+      | none =>
+        simp [hrec] at this ⊢
+        simp only [sumNat] at this; omega
+      | some pr =>
+        simp [hrec] at this ⊢
+        simp only [sumNat] at this; omega
+
+/-- bytes consumed: the remaining stream is shorter by exactly the sum of the sizes -/
+theorem takeDraws_rest_length (sizes stream : List Nat) (chunks : List (List Nat)) (rest : List Nat)
+    (h : takeDraws sizes stream = some (chunks, rest)) :
+    rest.length + sumNat sizes = stream.length := by
+  induction sizes generalizing stream chunks rest with
+  | nil => simp [takeDraws] at h; simp [h.2, sumNat]
+  | cons n sizes ih =>
+    simp only [takeDraws] at h
+    split_ifs at h with hlen
+    cases hrec : takeDraws sizes (stream.drop n) with
+    | none => simp [hrec] at h
+    | some pr =>
+      obtain ⟨cs, r⟩ := pr
+      simp only [hrec, Option.some.injEq, Prod.mk.injEq] at h
+      obtain ⟨_, rfl⟩ := h
+      have := ih _ _ _ hrec
+      simp only [sumNat, List.foldr_cons, List.length_drop] at this ⊢
+      omega
+
+/-- **Session round 2 in the model**: the `i`-th peer is opened the segment `[64·i, 64·i+32)` of the
+    party's round-2 stream as contribution and `[64·i+32, 64·i+64)` as witness: every peer has its own
+    segment, and the round consumes exactly 64 bytes per peer. -/
+theorem sessionRound2_segments (peers stream : List Nat) (out : List (Nat × List Nat × List Nat)) (rest : List Nat)
+    (h : sessionRound2 peers stream = some (out, rest)) :
+    out.map (·.1) = peers ∧ rest.length + 64 * peers.length = stream.length ∧
+    ∀ i (hi : i < out.length), (out[i]).2.1 = (stream.drop (64 * i)).take 32 ∧
+                                (out[i]).2.2 = (stream.drop (64 * i + 32)).take 32 := by
+  induction peers generalizing stream out rest with
+  | nil => simp [sessionRound2] at h; obtain ⟨rfl, rfl⟩ := h; simp
+  | cons p ps ih =>
+    simp only [sessionRound2] at h
+    split_ifs at h with hlen
+    cases hrec : sessionRound2 ps (stream.drop 64) with
+    | none => simp [hrec] at h
+    | some pr =>
+      obtain ⟨o, r⟩ := pr
+      simp only [hrec, Option.some.injEq, Prod.mk.injEq] at h
+      obtain ⟨rfl, rfl⟩ := h
+      obtain ⟨h1, h2, h3⟩ := ih _ _ _ hrec
+      refine ⟨by simp [h1], by simp only [List.length_cons, List.length_drop] at h2 ⊢; omega, ?_⟩
+      intro i hi
+      cases i with
+      | zero => simp
+      | succ j =>
+        have hj : j < o.length := by simpa using hi
+        obtain ⟨a, b⟩ := h3 j hj
+        simp only [List.getElem_cons_succ, a, b, List.drop_drop]
+        constructor <;> congr 2 <;> omega
+
+/-- hence, when the 32-byte segments of the stream that the round reads as contributions are pairwise
+    different (what a random stream gives except with negligible probability), **the contributions
+    opened to different peers are pairwise distinct** -/
+theorem sessionRound2_contributions_distinct (peers stream : List Nat) (out : List (Nat × List Nat × List Nat)) (rest : List Nat)
+    (h : sessionRound2 peers stream = some (out, rest))
+    (hs : ∀ i j, i < j → j < peers.length → (stream.drop (64 * i)).take 32 ≠ (stream.drop (64 * j)).take 32) :
+    (out.map (·.2.1)).Nodup := by
+  obtain ⟨h1, _, h3⟩ := sessionRound2_segments peers stream out rest h
+  have hl : out.length = peers.length := by rw [← h1]; simp
+  rw [List.nodup_iff_getElem?_ne_getElem?]
+  intro i j hij hj
+  simp only [List.length_map] at hj
+  have hi : i < out.length := by omega
+  simp only [List.getElem?_map, List.getElem?_eq_getElem hi, List.getElem?_eq_getElem hj, Option.map_some, ne_eq,
+    Option.some.injEq]
+  rw [(h3 i hi).1, (h3 j hj).1]
+  exact hs i j hij (by omega)
+
+-- the hypothesis is satisfiable (a stream whose 32-byte segments differ); the conclusion is then the
+-- distinctness the harness checks on the opened `PairwiseContribution` values
+set_option maxRecDepth 20000 in
+example : ((sessionRound2 [5, 9, 11] (List.range 200)).map fun r => decide (r.1.map (·.2.1)).Nodup) = some true := by
+  decide +kernel
+
+/-- the hoisted variant opens the SAME contribution (the first 32 bytes) to every peer … -/
+theorem sessionRound2Hoisted_constant (peers stream : List Nat) (out : List (Nat × List Nat × List Nat)) (rest : List Nat)
+    (h : sessionRound2Hoisted peers stream = some (out, rest)) :
+    ∀ x ∈ out, x.2.1 = stream.take 32 := by
+  unfold sessionRound2Hoisted at h
+  split_ifs at h
+  generalize stream.take 32 = c at h ⊢
+  generalize stream.drop 32 = s at h
+  induction peers generalizing s out rest with
+  | nil => simp [sessionRound2HoistedLoop] at h; simp [h.1]
+  | cons p ps ih =>
+    simp only [sessionRound2HoistedLoop] at h
+    split_ifs at h
+    cases hrec : sessionRound2HoistedLoop c ps (s.drop 32) with
+    | none => simp [hrec] at h
+    | some pr =>
+      obtain ⟨o, r⟩ := pr
+      simp only [hrec, Option.some.injEq, Prod.mk.injEq] at h
+      obtain ⟨rfl, rfl⟩ := h
+      intro x hx
+      rcases List.mem_cons.mp hx with rfl | hx
+      · rfl
+      · exact ih _ _ _ hrec x hx
+
+-- … and consumes only 32 + 32·peers bytes (200 − 96 = 104 left; the honest round leaves 200 − 128 = 72)
+set_option maxRecDepth 20000 in
+example : (sessionRound2Hoisted [5, 9] (List.range 200)).map (fun r => (r.1.map (·.2.1.head!), r.2.length)) = some ([0, 0], 104) := by decide
+set_option maxRecDepth 20000 in
+example : (sessionRound2 [5, 9] (List.range 200)).map (fun r => (r.1.map (·.2.1.head!), r.2.length)) = some ([0, 64], 72) := by decide
+example : takeDraws [32, 32, 48] (List.range 120) = some ([List.range 32, (List.range 64).drop 32, (List.range 112).drop 64], (List.range 120).drop 112) := by decide +kernel
+
+/-- **Per-recipient values are injective in the draws**: if what a recipient gets is an injective
+    function of its own draw (an opening `(contribution, witness)`, a commitment under `HashInj`),
+    the values for the recipients are pairwise distinct exactly when the draws are. -/
+theorem per_recipient_values_distinct {α β : Type*} (f : α → β) (hf : Function.Injective f) (draws : List α) :
+    (draws.map f).Nodup ↔ draws.Nodup :=
+  List.nodup_map_iff hf
+
+/-- a draw that is shared by two recipients shows as a repeated value -/
+theorem shared_draw_repeats {α β : Type*} (f : α → β) (c : α) (n : Nat) (h : 2 ≤ n) :
+    ¬ ((List.replicate n c).map f).Nodup := by
+  obtain ⟨m, rfl⟩ : ∃ m, n = m + 2 := ⟨n - 2, by omega⟩
+  simp [List.replicate_succ]
+
+example : ([3, 5, 9].map fun x : Nat => x + 1).Nodup ∧ ¬ ((List.replicate 2 7).map fun x : Nat => x + 1).Nodup := by decide
+
+/-- **Shares of different recipients differ**: under a dealer column `r` the shares of two MSP rows
+    coincide iff `r` is orthogonal to the difference of the rows — for Shamir's degree-1 rows `(1, x)`:
+    iff the random coefficient is zero or the evaluation points coincide. -/
+theorem shamir2_shares_equal_iff {F : Type*} [Field F] (s a xi xj : F) :
+    s + a * xi = s + a * xj ↔ a = 0 ∨ xi = xj := by
+  constructor
+  · intro h
+    have : a * (xi - xj) = 0 := by linear_combination h
+    rcases mul_eq_zero.mp this with h | h
+    · exact Or.inl h
+    · exact Or.inr (sub_eq_zero.mp h)
+  · rintro (rfl | rfl) <;> simp
+
+/-- over `ZMod 7`: holders 1 and 2 get different shares of `s = 3` when the coefficient is 5, the
+    same share when it is 0 -/
+example : (3 : ZMod 7) + 5 * 1 ≠ 3 + 5 * 2 ∧ (3 : ZMod 7) + 0 * 1 = 3 + 0 * 2 := by decide
+
+
+/-- **Every table entry reads at least the entropy it demands** (for every party set, every number of
+    MSP columns, every party): with `min_le_exact`, the library's mirror always satisfies the entropy
+    bound, so the violation verdict can never fire on the mirrored behaviour. -/
+theorem need_well_formed (ids : List Nat) (d id : Nat) :
+    ∀ sp ∈ allSpecs ids, ∀ st ∈ sp.need d id, wellFormed (st.once ++ st.perPeer) = true := by
+  intro sp hsp st hst
+  simp only [allSpecs, List.mem_cons, List.not_mem_nil, or_false] at hsp
+  rcases hsp with rfl | rfl | rfl | rfl | rfl | rfl | rfl | rfl | rfl | rfl | rfl | rfl | rfl
+  all_goals
+    simp only [session, dealer, gennaro, canetti, hjky, redistribute, lindell22, dkls23Bbot, dkls23Softspoken,
+      boldyreva, lindell17] at hst
+    try split_ifs at hst
+    all_goals
+      simp only [List.mem_cons, List.not_mem_nil, or_false] at hst
+      try rcases hst with rfl | rfl | rfl | rfl | rfl | rfl
+      all_goals
+        simp [wellFormed, dealRandom, dealColumn, scalar, wasted, rawBytes, zeroSharing]
+
+/-- the step characters of `reads` agree with the consumption tables: a step draws bytes (`S`/`1`) iff
+    its need is non-empty — checked on 2-, 3- and 4-party instances with 2 and 3 MSP columns (the tables
+    are uniform in both) -/
+def readsAgree (sp : Spec) (ids : List Nat) (d : Nat) : Bool :=
+  ids.all fun id =>
+    let steps := sp.need d id
+    let chars := (sp.reads id).toList
+    chars.length == steps.length &&
+      (chars.zip steps).all fun (c, st) => (c != '0') == (0 < exactBytes (st.draws (sp.peers id)))
+
+theorem reads_agree_with_need :
+    ∀ ids ∈ [[1, 2], [2, 5, 12], [1, 3, 4, 9]], ∀ d ∈ [2, 3],
+      ([session ids, gennaro ids, canetti ids, hjky ids, redistribute ids ids, lindell22 ids false,
+        lindell22 ids true, dkls23Bbot ids, dkls23Softspoken ids].all fun sp => readsAgree sp ids d) = true ∧
+      readsAgree (dealer ids) [0] d = true ∧ readsAgree (lindell17 (ids.headD 1) (ids.getLastD 2)) [ids.headD 1, ids.getLastD 2] d = true := by
+  decide
+
+/-- **Protocols that hand each peer its own secret have a per-peer part** in the step that samples it,
+    so the demanded entropy grows with every additional peer (`step_min_affine`): session round 2,
+    Lindell22 round 1 (zero-sharing coefficients), DKLs23 (OT keys, choice bits, pads). -/
+theorem per_peer_parts_present (ids : List Nat) (d id : Nat) :
+    0 < minBytes (((session ids).need d id).getD 2 {}).perPeer ∧
+    0 < minBytes (((lindell22 ids false).need d id).getD 1 {}).perPeer ∧
+    0 < minBytes (((dkls23Bbot ids).need d id).getD 1 {}).perPeer ∧
+    0 < minBytes (((dkls23Bbot ids).need d id).getD 2 {}).perPeer ∧
+    0 < minBytes (((dkls23Softspoken ids).need d id).getD 2 {}).perPeer ∧
+    0 < minBytes (((dkls23Softspoken ids).need d id).getD 3 {}).perPeer := by
+  simp [session, lindell22, dkls23Bbot, dkls23Softspoken, minBytes, sumNat, rawBytes, scalar, zeroSharing]
+
+/-- hence every additional peer costs 64 more bytes in session round 2 -/
+example : [[2, 9], [2, 5, 9], [2, 5, 9, 11], [1, 2, 5, 9, 11]].map (fun ids => minBytes (sessionRound2Need ids 2)) = [64, 128, 192, 256] := by
+  decide
+
+
+end draws
 
 /-! ## Part P: joint values are injective in each party's contribution
 
